@@ -46,3 +46,49 @@ Theorem C06_let_chain_scope : forall ss sc names vals q sc' q',
   scope_inv sc' vals' /\ (forall n, isb_of sc' n = bound_in names' n).
 Proof. exact let_chain_scope. Qed.
 Print Assumptions C06_let_chain_scope.
+
+(** ** the output depends on the scope only through the names the program uses (Proofs/ScopeFacts.v) *)
+From PQL Require Import Proofs.ScopeFacts.
+
+(** [uses_stmt k s]: an unquoted, unqualified identifier spelled [k] stands somewhere in [s] in
+    expression position (where, project incl. the bare-column shorthand, extend, summarize, sort,
+    take, top, join conditions at any depth, let values); function names, table names, aliases,
+    quoted and qualified names do not count.  If two parameter lists agree on every name but [k] and
+    no statement uses [k], Compile returns the same result (text or error) for both. *)
+Theorem C06_output_depends_on_used_names_only : forall k source params params' ss,
+  agree_except k (map (fun kv : str * str => (fst kv, [PRaw (snd kv)])) params) (map (fun kv : str * str => (fst kv, [PRaw (snd kv)])) params') ->
+  Forall (fun s => uses_stmt k s = false) ss ->
+  compile_stmts source params ss = compile_stmts source params' ss.
+Proof. exact compile_stmts_unused. Qed.
+Print Assumptions C06_output_depends_on_used_names_only.
+
+(** unused bindings do not change the output: a parameter no statement uses can be removed,
+    wherever it stands in the list *)
+Theorem C06_unused_parameter : forall k v source pre post ss, Forall (fun s => uses_stmt k s = false) ss ->
+  compile_stmts source (pre ++ (k, v) :: post) ss = compile_stmts source (pre ++ post) ss.
+Proof. exact unused_parameter. Qed.
+Print Assumptions C06_unused_parameter.
+
+Theorem C06_unused_parameter_source : forall k v pre post s ss, parse s = ParseOk ss -> Forall (fun st => uses_stmt k st = false) ss ->
+  compile (pre ++ (k, v) :: post) s = compile (pre ++ post) s.
+Proof. intros k v pre post s ss P H. unfold compile. rewrite P, (unused_parameter k v s pre post ss H). reflexivity. Qed.
+Print Assumptions C06_unused_parameter_source.
+
+(** the same for the expression writer and any two scopes (let bindings included) *)
+Theorem C06_unused_binding_expression : forall k sc sc' m, agree_except k sc sc' ->
+  forall e w, uses_e k e = false -> wx (mkCtx sc m) w e = wx (mkCtx sc' m) w e.
+Proof. exact wx_unused. Qed.
+Print Assumptions C06_unused_binding_expression.
+
+(** parameters are inserted verbatim: an unquoted, unqualified identifier bound to a parameter
+    text is written as exactly that text, in every position and under every wrapping *)
+Theorem C06_parameter_verbatim : forall sc m w p v, iquoted p = false -> scope_get sc (iname p) = Some [PRaw v] ->
+  wx (mkCtx sc m) w (EQual [p]) = Ok [PRaw v] /\ render [PRaw v] = v.
+Proof. exact parameter_verbatim. Qed.
+Print Assumptions C06_parameter_verbatim.
+
+Example C06_unused_example :
+  compile [(L "p", L "{p:String}"); (L "unused", L "DROP TABLE x")] (L "T | where a == p") =
+  compile [(L "p", L "{p:String}")] (L "T | where a == p")
+  /\ exists ps, compile [(L "p", L "{p:String}")] (L "T | where a == p") = COk ps.
+Proof. vm_compute. split; [reflexivity|eexists; reflexivity]. Qed.
